@@ -94,6 +94,11 @@ def run_impl(case):
         items = [e[2] for e in trace if e[0] == 'n']
         t = [['c', [0]]] + [['n', [0], x] for x in items] + [['d', [0]]]
         obs = muxlib.run_mux([['group', case['km'], ast + [['tap', 1]]]], t, taps=True)
+        # the same through the public entry point: plain source -> with_memory_store(group_by(...)) -> plain items
+        try:
+            obs['entry'] = muxlib.run_mux_plain_source([['group', case['km'], ast]], items)['steps']
+        except Exception as e:
+            obs['entry'] = {'raised': type(e).__name__}
         from harness.pyval import py_fn, dec
         km = py_fn(case['km'])
         groups, order = {}, []
@@ -172,6 +177,20 @@ def mux_results(case, obs):
     return res
 
 
+def cut_fatal(steps):
+    out, dead = [], False
+    for st in steps:
+        cur = []
+        for o in st:
+            if dead:
+                break
+            cur.append(o)
+            if o[0] == 'fatal':
+                dead = True
+        out.append(cur)
+    return out
+
+
 def sig_of(ast):
     ks = []
     for n in ast:
@@ -183,6 +202,13 @@ def oracle(case, obs):
     if 'raised' in obs:
         return None          # outside the modelled fragment; reported through the correspondence
     res = mux_results(case, obs)
+    if case['kind'] == 'groupby' and obs.get('entry') is not None:
+        # with_memory_store / multiplex / demux wrappers: same events as the explicit mux trace
+        e = obs['entry']
+        norm = lambda steps: [[o for o in st if o[0] != 'e'] + [['fatal', o[2]] for o in st if o[0] == 'e'][:1] for st in steps]
+        if isinstance(e, dict) or cut_fatal(norm(e)) != cut_fatal(norm(obs['steps'])):
+            return {'sig': 'transparency:entry-point', 'what': 'with_memory_store(group_by(...)) on a plain source emits %s, the '
+                    'same pipeline on the explicit mux trace emits %s' % (json.dumps(e)[:200], json.dumps(obs['steps'])[:200])}
     for i, (r, p) in enumerate(zip(res, obs['plain'])):
         if 'raised' in p:
             continue
